@@ -15,7 +15,7 @@ messages, all of it at quiescence unless the connection was lost; after a fatal 
 socket.send on that socket; the close notification (close handler / ConnectionDown) exactly once.
 """
 import errno, gc, os, socket as _socket, sys
-from mc.engine import explore, pmap, Ctx
+from mc.engine import explore, pmap, Ctx, cost_of
 from mc.report import Report
 
 PID = "C20"
@@ -590,52 +590,74 @@ def p2_run_one (c, prefix):
   return ctx, res
 
 
-def p2_first_level (c):
-  ctx1, r1 = p2_run_one(c, [])
-  ctx2, r2 = p2_run_one(c, [])
-  if [(t[1], t[2]) for t in ctx1.trace] != [(t[1], t[2]) for t in ctx2.trace]:
-    raise RuntimeError("nondeterministic default schedule for %s" % p2_name(c))
-  kids = []
-  for i, (ch, n, label, costly) in enumerate(ctx1.trace):
-    for alt in range(1, n):
-      if costly and c["bound"] < 1: continue
-      kids.append([0] * i + [alt])
-  return kids, len(ctx1.trace)
+def kids_of (tr, plen, bound):
+  """The children mc.engine.explore would generate for an execution whose prefix had plen choices."""
+  base = cost_of(tr, plen)
+  out = []
+  for i in range(plen, len(tr)):
+    ch, arity, label, costly = tr[i]
+    for alt in range(1, arity):
+      if costly and base + 1 > bound: break
+      out.append([t[0] for t in tr[:i]] + [alt])
+  return out
 
 
-def _p2_first_worker (item):
-  ci, c = item
+def p2_record (rep, c, ctx, res):
+  (bad, herr), obs = res
+  name = p2_name(c) + "/sched<=%d,script<=%d" % (c["bound"], c["sdev"])
+  rep.evaluations += 1
+  rep.transitions += obs["points"]
+  rep.extra["execs:" + name] = rep.extra.get("execs:" + name, 0) + 1
+  rep.outcome((obs["variant"], obs["verdict"], obs["socket_calls"], obs["accepted"], obs["connection_down"],
+               obs["disconnected"], obs["closed"], sorted(b[0] for b in bad)))
+  if rep.evaluations % 1999 == 1: rep.sample(dict(part=2, **obs))
+  if herr: rep.error("%s: %s (choices %r)" % (name, herr, ctx.choices()))
+  for clause, what in bad:
+    rep.violation("%s:p2:%s" % (PID, clause), "%s [%s]" % (what, p2_name(c)),
+                  dict(part=2, config=c, choices=ctx.choices()))
+  if rep.evaluations % 200 == 0: gc.collect()
+
+
+def p2_level_worker (item):
+  """Run the executions of the given prefixes (one each, no exploration); return their children.
+  The root is run twice to check that the default execution is deterministic."""
+  ci, c, prefixes = item
   gc.disable()
+  rep = Report(PID, "model_checking")
+  kids = []
+  npts = None
   try:
-    kids, npts = p2_first_level(c)
+    for pfx in prefixes:
+      ctx, res = p2_run_one(c, pfx)
+      if not pfx:
+        ctx2, res2 = p2_run_one(c, pfx)
+        if [(t[1], t[2]) for t in ctx.trace] != [(t[1], t[2]) for t in ctx2.trace] or res[1] != res2[1]:
+          raise RuntimeError("nondeterministic default execution for %s" % p2_name(c))
+        npts = res[1]["points"]
+      p2_record(rep, c, ctx, res)
+      kids.extend(kids_of(ctx.trace, len(pfx), c["bound"]))
   finally:
-    gc.enable()
-  return ci, kids, npts
+    gc.collect(); gc.enable()
+  rep.state_count = rep.evaluations
+  return ci, rep, kids, npts
 
 
 def p2_worker (item):
-  ci, c, prefixes, bound = item
+  ci, c, prefixes = item
   gc.disable()
   rep = Report(PID, "model_checking")
-  name = p2_name(c) + "/sched<=%d,script<=%d" % (c["bound"], c["sdev"])
-  def on_exec (ctx, res):
-    (bad, herr), obs = res
-    rep.evaluations += 1
-    rep.transitions += obs["points"]
-    rep.extra["execs:" + name] = rep.extra.get("execs:" + name, 0) + 1
-    rep.outcome((obs["variant"], obs["verdict"], obs["socket_calls"], obs["accepted"], obs["connection_down"],
-                 obs["disconnected"], obs["closed"], sorted(b[0] for b in bad)))
-    if rep.evaluations % 1999 == 1: rep.sample(dict(part=2, **obs))
-    if herr: rep.error("%s: %s (choices %r)" % (name, herr, ctx.choices()))
-    for clause, what in bad:
-      rep.violation("%s:p2:%s" % (PID, clause), "%s [%s]" % (what, p2_name(c)),
-                    dict(part=2, config=c, choices=ctx.choices()))
-    if rep.evaluations % 200 == 0: gc.collect()
-  for pfx in prefixes:
-    explore(lambda ctx: p2_exec(ctx, c), dev_bound=bound, prefix0=pfx, on_exec=on_exec)
-  gc.collect(); gc.enable()
+  try:
+    for pfx in prefixes:
+      explore(lambda ctx: p2_exec(ctx, c), dev_bound=c["bound"], prefix0=pfx,
+              on_exec=lambda ctx, res: p2_record(rep, c, ctx, res))
+  finally:
+    gc.collect(); gc.enable()
   rep.state_count = rep.evaluations
   return rep
+
+
+def chunks (xs, n):
+  return [xs[i:i+n] for i in range(0, len(xs), n)]
 
 
 # ===========================================================================================
@@ -650,16 +672,20 @@ def run (cfg):
   # ---- part 2
   c2 = p2_configs(cfg)
   if only: c2 = [c for c in c2 if only in p2_name(c)]
-  items = []
   pts = {}
-  for ci, kids, npts in pmap(_p2_first_worker, list(enumerate(c2)), cfg.workers):
-    c = c2[ci]
-    pts["%s/sched<=%d,script<=%d" % (p2_name(c), c["bound"], c["sdev"])] = npts
-    items.append((ci, c, [[]], 0))                 # the default execution alone
-    n = max(1, len(kids) // (cfg.workers * 3) + 1)
-    for i in range(0, len(kids), n):
-      items.append((ci, c, kids[i:i+n], c["bound"]))
-  for r in pmap(p2_worker, items, cfg.workers, seed=cfg.seed):
+  # the DFS tree is partitioned at depth 2: the root and its children are executed one by one
+  # (collecting their children), every grandchild is the root of a subtree explored by one worker call
+  level = [(ci, c, [[]]) for ci, c in enumerate(c2)]
+  for depth in range(2):
+    nxt = []
+    for ci, r, kids, npts in pmap(p2_level_worker, level, cfg.workers):
+      rep.merge(r)
+      c = c2[ci]
+      if npts is not None: pts["%s/sched<=%d,script<=%d" % (p2_name(c), c["bound"], c["sdev"])] = npts
+      nxt.extend((ci, c, ch) for ch in chunks(kids, 4 if depth == 0 else 6))
+    level = nxt
+  level.sort(key=lambda it: (it[0], it[2]))
+  for r in pmap(p2_worker, level, cfg.workers, seed=cfg.seed):
     rep.merge(r)
   rep.rule = ("part 1: real RecocoIOWorker in a hand-driven RecocoIOLoop.run() generator; messages %r queued with every listed "
               "send/send_fast combination (and a variant ending with close()); every interleaving of client calls and loop "
@@ -672,7 +698,7 @@ def run (cfg):
               "non-default outcomes.  distinct = (variant, history/verdict, socket calls, accepted bytes, notifications, failed clauses)"
               % (list(MSGS), cfg.pick(2, 3), ", ".join(FUNCS)))
   rep.bound = dict(part1=dict(configs=len(c1), send_calls_scripted=6, script_deviations=cfg.pick(2, 3)),
-                   part2=dict(configs=len(c2), send_calls_scripted=4, choice_points_default_execution=pts))
+                   part2=dict(configs=len(c2), send_calls_scripted=4, scheduling_points_default_execution=pts))
   rep.assumptions = ["C-level atomicity of dict/list operations (CPython GIL); code outside the listed of_01 functions runs atomically between scheduling points",
                      "modelled RLock/select/waker (mc/thr.py); the fake socket is always writable until closed, a shut-down socket is readable/writable and fails sends with EPIPE, "
                      "select on a closed socket raises ValueError like select.select; DeferredSender's 5 s select timeout is a polling interval never fired while data is queued",
